@@ -107,6 +107,11 @@ def c14(ctx):
     quick = ctx.tier == "quick"
     bad, ev, hist = run_game_traces(ctx, "typed", 8, 4 if quick else 16, 40 if quick else 80, extra=["--full-every", 4 if quick else 2])
     absorb_game(ctx, bad, {"Coord", "CoordBatch", "Label", "LabelBatch", "GToggle"})
+    # every catalogue position (rule interactions: two en-passant capturers, pinned pieces, promotions ...)
+    badc, evc, histc = run_game_traces(ctx, "typedseeds", 8, 0, 0, extra=["--nshards", 8])
+    absorb_game(ctx, badc, {"Coord", "CoordBatch", "Label", "LabelBatch", "GToggle"})
+    ev += evc
+    hist += histc
     ctx.evaluations += ev
     ctx.nontrivial += hist
     import cli
